@@ -103,16 +103,17 @@ def main():
         'evaluations': counts.get('evaluations', 0),
         'distinct_nontrivial': counts.get('nontrivial', 0),
         'rule': 'Every combination of serializer {XalanXMLSerializerFactory product, legacy FormatterToXML} x encoding {UTF-8, UTF-16, '
-                'ISO-8859-1, US-ASCII, windows-1252 (ICU transcoder)} x XML version {1.0, 1.1} x item kind {text, attribute value, '
-                'CDATA section (cdata on), comment, PI data, element name, attribute name} x 35 character items (markup characters, TAB/CR/LF, '
-                ']]> ]] ], -- -, ?>, U+0080 U+0085 U+00FF U+0100 U+07FF U+0800 U+2028 U+FFFD U+FFFE U+FFFF U+10000 U+10FFFF, lone '
+                'ISO-8859-1, US-ASCII, windows-1252 and GB18030 (both ICU transcoder)} x XML version {1.0, 1.1} x item kind {text, attribute '
+                'value, CDATA section (cdata on), comment, PI data, element name, attribute name} x 35 character items (markup characters, '
+                'TAB/CR/LF, ]]> ]] ], -- -, ?>, U+0080 U+0085 U+00FF U+0100 U+07FF U+0800 U+2028 U+FFFD U+FFFE U+FFFF U+10000 U+10FFFF, lone '
                 'surrogates, U+0001 U+0008 U+007F U+009F, two spans followed in memory by "]>" / ">"; 5 non-ASCII letters for names) x '
                 'every offset 512*m+d, m in {1,2}, d in -8..+8 of the item in the writer buffers (ASCII padding computed from a probe of '
                 'the bytes already emitted, handed over in boundary-aligned chunks); thorough adds every ordered PAIR of adjacent items '
-                'at every offset. Each script is driven directly into the FormatterListener; a subset (m=1, d in -4..+4) is also built '
-                'by a real stylesheet through XalanTransformer (e2e). Oracle: the bytes are parsed by expat and libxml2 (XML 1.1 rules '
-                'applied by a pre-scan); well formed, tree equal to the script, or an error when the tree is not representable. '
-                'Non-trivial (measured) = a buffer flush falls on/inside the item bytes, or the item was not written verbatim.',
+                '(33x33) at m=1, d in -8..+8. Each script is driven directly into the FormatterListener; the same trees (m=1, d in -4..+4) '
+                'are also built by a real stylesheet through XalanTransformer (e2e; cdata-section-elements on for the cdata kind). Oracle: '
+                'the bytes are parsed by expat and libxml2 (XML 1.1 rules applied by a pre-scan); they must be well formed and give the '
+                'script tree, or the call must fail when the tree is not representable. Non-trivial (measured) = a buffer flush falls '
+                'on/inside the item bytes, or the item was not written verbatim.',
         'samples': samples[:8] or ['none'],
         'space_singles': counts.get('space_singles', 0), 'space_pairs': counts.get('space_pairs', 0), 'space_e2e': counts.get('space_e2e', 0),
         'evaluations_factory': counts.get('evaluations_factory', 0), 'evaluations_legacy': counts.get('evaluations_legacy', 0),
